@@ -156,7 +156,9 @@ fn combos(t: Tier) -> Vec<DefectCase> {
     let n = ALL_DEFECTS.len();
     for q in [false, true] {
         for i in 0..n {
-            out.push(DefectCase { query_carrier: q, defects: vec![ALL_DEFECTS[i]], variant: 0 });
+            for v in [0u8, 0x04, 0x24, 0x44, 0x84, 0xC4, 0x02, 0x03, 0x10, 0x20, 0x08, 0x48] {
+                out.push(DefectCase { query_carrier: q, defects: vec![ALL_DEFECTS[i]], variant: v });
+            }
             for j in (i + 1)..n {
                 out.push(DefectCase { query_carrier: q, defects: vec![ALL_DEFECTS[i], ALL_DEFECTS[j]], variant: (i + j) as u8 });
                 if t == Tier::Thorough {
@@ -191,7 +193,7 @@ pub fn build(dc: &DefectCase, defects: &[Defect]) -> Case {
         plan.spec.sep = (dc.variant >> 6) + if dc.variant & 0x08 != 0 { 2 } else { 0 };
     }
     plan.cfg.fold = true;
-    plan.cfg.reqs = Reqs { always: vec!["X-Must".into()], if_in_request: vec![], prefixes: vec!["X-Pre-".into()], route: dc.variant % 3 };
+    plan.cfg.reqs = Reqs { always: vec!["X-Must".into()], if_in_request: vec![], prefixes: vec!["X-Pre-".into()], route: dc.variant % 5 };
     plan.logical.headers.push(("x-must".into(), vec![B::from("1")]));
     plan.logical.headers.push(("x-pre-one".into(), vec![B::from("p")]));
     plan.logical.method = if dc.variant % 2 == 0 { "POST".into() } else { "GET".into() };
@@ -341,7 +343,14 @@ pub fn build(dc: &DefectCase, defects: &[Defect]) -> Case {
                 edit_auth(&mut req, &|v| format!("{}, Bogus", v));
             }
             if has(WrongAlgorithm) {
-                edit_auth(&mut req, &|v| v.replacen("AWS4-HMAC-SHA256", "AWS4-HMAC-SHA512", 1));
+                if dc.variant & 0x04 != 0 {
+                    // the FIRST Authorization header is of another scheme; the SigV4 one follows it
+                    let other = ["Basic dXNlcjpwYXNz", "AWS3 AWSAccessKeyId=AKID,Algorithm=HmacSHA256,Signature=abc=", "Bearer token=abc", "AWS4-HMAC-SHA512 Credential=x"][(dc.variant >> 6) as usize % 4];
+                    let at = req.headers.iter().position(|(n, _)| n.eq_ignore_ascii_case("authorization")).unwrap_or(0);
+                    req.headers.insert(at, ("Authorization".into(), B::from(other)));
+                } else {
+                    edit_auth(&mut req, &|v| v.replacen("AWS4-HMAC-SHA256", "AWS4-HMAC-SHA512", 1));
+                }
             }
             if has(BothCarriers) {
                 req.uri = format!("{}&X-Amz-Algorithm=AWS4-HMAC-SHA256", req.uri);
@@ -386,11 +395,13 @@ pub fn build(dc: &DefectCase, defects: &[Defect]) -> Case {
         }
     }
     let mut cfg = plan.cfg.clone();
+    // outside the window by a whole second, or -- with a server clock that has a sub-second part -- by 0.3 s
+    let beyond: i128 = if dc.variant & 0x04 != 0 { 900_300_000_000 } else { 901_000_000_000 };
     if has(Expired) {
-        cfg.now = plan.instant.add_nanos(901_000_000_000);
+        cfg.now = plan.instant.add_nanos(beyond);
     }
     if has(Future) {
-        cfg.now = plan.instant.add_nanos(-901_000_000_000);
+        cfg.now = plan.instant.add_nanos(-beyond);
     }
     let mut prov = plan.provider();
     if has(ProviderInvalidToken) {
@@ -527,6 +538,34 @@ pub fn check_defects(dc: &DefectCase, cc: &mut CaseCtx) -> CheckResult {
 
 /// kind -> code/status on directly constructed values of every variant.
 pub fn check_kind_table(k: &Kind, cc: &mut CaseCtx) -> CheckResult {
+    // every payload variety of the two wrapping kinds: each io::ErrorKind, each thing an internal error may wrap
+    let varieties = match k {
+        Kind::IO => exec::IO_KINDS.len(),
+        Kind::InternalServiceError => 6,
+        _ => 1,
+    };
+    for v in 0..varieties {
+        let msg = format!("message ({})", v);
+        let info = exec::err_info(&exec::make_sig_err(*k, &msg));
+        if info.kind != Some(*k) {
+            return Err(harness_bug("kind mapping"));
+        }
+        check_taxonomy(&info).map_err(|f| Failure::new(&f.sig, format!("{} [payload variety {}: {}]", f.msg, v, info.debug)))?;
+        let boxed: Box<dyn std::error::Error + Send + Sync> = Box::new(exec::make_sig_err(*k, &msg));
+        let back = exec::err_info(&scratchstack_aws_signature::SignatureError::from(boxed));
+        if back.kind != info.kind || back.debug != info.debug || back.code != info.code || back.status != info.status {
+            return Err(Failure::new("error-conversion-changes-kind", format!("{} converted from a boxed error became {}", info.debug, back.debug)));
+        }
+        cc.nontrivial(digest_of(&[format!("{:?}{}", k, v).as_bytes()]));
+    }
+    for v in 0..8 {
+        let conv = scratchstack_aws_signature::SignatureError::from(exec::foreign_error(&format!("x ({})", v)));
+        let info = exec::err_info(&conv);
+        if info.kind != Some(Kind::InternalServiceError) {
+            return Err(Failure::new("foreign-error-conversion", format!("foreign error type {} became {:?}", v, info.kind)));
+        }
+        check_taxonomy(&info)?;
+    }
     let e = exec::make_sig_err(*k, "message");
     let info = exec::err_info(&e);
     cc.class("constructed");
